@@ -40,7 +40,9 @@ func probeDead(cn *wire.Conn, args ...string) (alive bool, what string) {
 func c20Termination(r *verdict.Run, race bool) {
 	scenarios := []string{"idle", "half-command", "pipeline-in-flight", "in-multi", "blocked-forever", "blocked-10s", "many-connections", "mixture", "no-clients", "close-api", "reqterm-then-wait",
 		// clients of every kind that went away before the termination (orderly close, reset, half-close), alone or next to live ones
-		"departed-close", "departed-rst", "departed-half-close", "departed-and-live", "departed-blocked-rst"}
+		"departed-close", "departed-rst", "departed-half-close", "departed-and-live", "departed-blocked-rst",
+		// clients whose blocking command has been dispatched but does not count as blocked yet when the termination starts
+		"about-to-block"}
 	parallel(len(scenarios), 6, func(i int) {
 		sc := scenarios[i]
 		c, err := startChild(race)
@@ -123,6 +125,23 @@ func c20Termination(r *verdict.Run, race bool) {
 			for j := 0; j < 4; j++ {
 				mk("blocked-forever")
 			}
+		case "about-to-block":
+			c.Ctl("park blk:before-begin -1")
+			from := c.EventCount()
+			for j := 0; j < 3; j++ {
+				mk("blocked-forever")
+			}
+			for j := 0; j < 3; j++ {
+				c.WaitEvent(from, func() func(host.Event) bool {
+					n := 0
+					return func(ev host.Event) bool {
+						if ev.Kind == "parked" && ev.Point == "blk:before-begin" {
+							n++
+						}
+						return n >= 3
+					}
+				}(), 3*time.Second)
+			}
 		case "no-clients", "close-api", "reqterm-then-wait":
 			mk("idle")
 		default:
@@ -179,6 +198,9 @@ func c20Termination(r *verdict.Run, race bool) {
 			return
 		}
 		log = append(log, fmt.Sprintf("Close returned after %v", took))
+		if sc == "about-to-block" {
+			c.Ctl("releaseall") // the parked commands go on only now, after the termination
+		}
 		// from now on no previously connected client may read or modify data
 		survivors, wrote := 0, 0
 		var examples []string
@@ -244,6 +266,28 @@ func c20Termination(r *verdict.Run, race bool) {
 				r.Report("life/new-connection-served-after-close/"+sc, fmt.Sprintf("scenario %s: a connection opened after Close() was served: %s", sc, v), rep)
 			}
 			cn.Close()
+		}
+		// termination is complete only when the emulator's goroutines are gone (connections, blocked commands, saver)
+		if !race {
+			left, tops := -1, ""
+			for t := time.Now(); time.Since(t) < 3*time.Second; time.Sleep(20 * time.Millisecond) {
+				out, err := c.Do(5*time.Second, "emugoroutines")
+				if err != nil {
+					break
+				}
+				f := strings.SplitN(strings.TrimPrefix(out, "ok "), " ", 2)
+				left, _ = strconv.Atoi(f[0])
+				if len(f) > 1 {
+					tops = f[1]
+				}
+				if left == 0 {
+					break
+				}
+			}
+			r.Count("goroutine_leak_checks", 1)
+			if left > 0 {
+				r.Report("life/goroutines-left-after-close/"+sc, fmt.Sprintf("scenario %s: 3 s after Close() returned and every client connection was closed, %d goroutines of the emulator are still alive: %s", sc, left, tops), rep)
+			}
 		}
 		r.Distinct(fmt.Sprintf("termination/%s/survivors=%v", sc, survivors > 0))
 	})
@@ -431,7 +475,7 @@ func c20MultiInstance(r *verdict.Run, race bool) {
 var _ sync.Mutex
 
 func checkC20(r *verdict.Run) {
-	r.Rule = "scenarios run inside child processes through the emulator's Go API (RequestTermination / WaitForTermination / Close), observed through sockets: (1) termination with 16 client populations (idle, half a command sent, pipeline in flight, inside MULTI, blocked with timeout 0 and 10 s, 200 connections, mixtures, and the same kinds after the clients went away by close / reset / half-close before the termination, alone or next to live clients): Close must return within 6 s and afterwards every pre-existing connection must get EOF/reset on its next request (never a normal reply, never a write), new connections are refused; " +
+	r.Rule = "scenarios run inside child processes through the emulator's Go API (RequestTermination / WaitForTermination / Close), observed through sockets: (1) termination with 16 client populations (idle, half a command sent, pipeline in flight, inside MULTI, blocked with timeout 0 and 10 s, 200 connections, mixtures, and the same kinds after the clients went away by close / reset / half-close before the termination, alone or next to live clients, and clients whose blocking command was dispatched but not yet blocked): Close must return within 6 s and afterwards every pre-existing connection must get EOF/reset on its next request (never a normal reply, never a write), new connections are refused, and within 3 s no goroutine of the emulator is left; " +
 		"(2) port/state reuse: Close then a new emulator on the same port in the same process, repeatedly, with predecessor connections still open and writing: it must bind and be empty in all 16 databases; (3) two emulators in one process: data, CLIENT LIST, CLIENT KILL, CLIENT UNBLOCK must not cross instances, closing one leaves the other serving. distinct = scenarios and cycles"
 	c20Termination(r, false)
 	c20PortReuse(r, tierPick(r, 50, 1000))
